@@ -142,9 +142,19 @@ def build_formulas(cfg: dict, cliff: bool = True, name_map: dict | None = None,
     order = list(range(cfg['K']))
     if reverse_terms:
         order = order[::-1]
+    second = list(blist)
+    if cfg.get('dup_objects'):
+        # the same parameter declared twice (two Beta objects with one name, as a helper called twice does)
+        second = []
+        for i in range(cfg['K']):
+            bd = cfg['bounds'][i] if cfg.get('bounds') else None
+            lb, ub = (bd if bd else (None, None))
+            twin = Beta(nm(cfg['names'][i]), cfg['init'][i], lb, ub, 0)
+            betas.setdefault('__twins__', []).append((cfg['names'][i], twin))
+            second.append(twin)
     ridge = None
     for i in order:
-        t = blist[i] * blist[i]
+        t = blist[i] * second[i]
         ridge = t if ridge is None else ridge + t
     if cfg['family'] == 'logit':
         lab = cfg['labels']
@@ -166,7 +176,8 @@ def build_formulas(cfg: dict, cliff: bool = True, name_map: dict | None = None,
         terms = []
         for i in order:
             d = blist[i] - cfg['coef'][i] * v(colname(cfg, cfg['assign'][i][1]))
-            terms.append(d * d)
+            d2 = d if second[i] is blist[i] else second[i] - cfg['coef'][i] * v(colname(cfg, cfg['assign'][i][1]))
+            terms.append(d * d2)
         if len(terms) > 20:
             from biogeme.expressions import bioMultSum
             ll = -bioMultSum(terms)  # flat sum: a 100-deep binary tree is very slow in the engine
